@@ -682,7 +682,11 @@ def numeric(e, env: dict, model: Model | None = None, prec=50):
     def _tie(a, b, what, ex=True):
         try:
             if a != b and abs(a - b) <= mp.mpf("1e-9") * (1 + abs(a) + abs(b)):
-                NEAR_TIES.append(what)
+                # ... unless double arithmetic computes both operands without any rounding (an input compared with a
+                # literal): then every correct artefact decides the comparison as the reals do, however close they are
+                # (this is the witness an "equal within a tolerance" mutant needs)
+                if not ex:
+                    NEAR_TIES.append(what)
             elif a == b and not ex:
                 # an exact tie between values that double arithmetic cannot compute exactly (2/0.2, 1/sqrt(100) vs 0.1):
                 # the double evaluation lands on either side
